@@ -45,7 +45,9 @@ META = {
                  "TestCaseExecutor",
     "design_ref": "DESIGN.md §3 C05",
     "rule": "case = 1..3 hazard functions (pygen model; each 1..3 hazards out of {incomparable comparison, raising user "
-            "__lt__/__le__/__eq__/__ne__/__bool__/__contains__/__len__, raising property / missing attribute}, used in an if, a while, "
+            "__lt__/__le__/__eq__/__ne__/__bool__/__contains__/__len__, raising property / missing attribute, __contains__ raising "
+            "SystemExit/KeyboardInterrupt (caught with except BaseException), membership in a list/dict subclass whose __iter__ raises, "
+            "attribute access on a __slots__ object whose __getattr__ raises KeyError/ValueError}, used in an if, a while, "
             "a boolean operator, a ternary or an assignment, each caught by the function; a witness block with new lines, an if/else "
             "and a for loop follows every hazard) + 2..6 calls with drawn arguments + a metric subset; one evaluation = one call in "
             "direct mode or one statement in test-case mode; non-trivial = the interpreter executed >= 1 exception handler of a hazard "
@@ -65,7 +67,8 @@ PLAN = {
     "thorough": {"shards": 16, "examples": 6000, "timeout": 3300, "shrink_sigs": 4, "shrink_seconds": 150, "shrink_calls": 400},
 }
 CHILD_TIMEOUT = 240.0
-METRIC_SETS = [["BRANCH", "LINE"], ["BRANCH", "LINE"], ["BRANCH"], ["LINE"], ["BRANCH", "CHECKED", "LINE"], ["CHECKED"]]
+METRIC_SETS = [["BRANCH", "LINE"], ["BRANCH", "LINE"], ["BRANCH"], ["LINE"], ["BRANCH", "CHECKED", "LINE"], ["CHECKED"],
+               ["CHECKED", "LINE"]]
 
 # hazard kind -> (class name or None, dunder/attribute, raised exception)
 USER_CLASSES = {
@@ -74,7 +77,43 @@ USER_CLASSES = {
     "RLen": ("__len__", "ValueError"),
 }
 HAZARDS = ["cmp-lt", "cmp-le", "cmp-gt", "cmp-ge", "user-lt", "user-le", "user-eq", "user-ne", "user-bool", "user-not", "user-in",
-           "user-len", "attr-prop", "attr-missing", "call-raises"]
+           "user-len", "attr-prop", "attr-missing", "call-raises",
+           # the tracer's own evaluation leaves through an exception that is not an ``Exception`` / that only the tracer provokes
+           "base-exit", "base-kbd", "base-exit", "base-kbd", "iter-list", "iter-dict",
+           # CHECKED: attribute access on a __slots__ object whose __getattr__ raises something else than AttributeError
+           "slot-key", "slot-value", "slot-key", "slot-value"]
+
+# classes that pygen's class model cannot express (base classes, class attributes); appended verbatim to the rendered module
+EXTRA_SOURCE = '''\
+class RExit:
+    def __contains__(self, o):
+        raise SystemExit("contains")
+class RKbd:
+    def __contains__(self, o):
+        raise KeyboardInterrupt("contains")
+class RIterL(list):
+    def __iter__(self):
+        raise RuntimeError("iter")
+class RIterD(dict):
+    def __iter__(self):
+        raise RuntimeError("iter")
+class RSlotK:
+    __slots__ = ("n",)
+    def __init__(self, n):
+        self.n = n
+    def __getattr__(self, name):
+        raise KeyError(name)
+class RSlotV:
+    __slots__ = ("n",)
+    def __init__(self, n):
+        self.n = n
+    def __getattr__(self, name):
+        raise ValueError(name)
+'''
+
+
+def render_module(case: dict) -> str:
+    return pygen.render(build_model(case)) + EXTRA_SOURCE
 FORMS = ["if", "while", "boolop", "ternary", "assign"]
 
 
@@ -119,6 +158,18 @@ def _hazard_expr(kind: str) -> tuple[dict, str]:
         return {"k": "attr", "o": CALL("RAttr", C(1)), "a": "v"}, "ValueError"
     if kind == "attr-missing":
         return {"k": "attr", "o": CALL("RAttr", C(1)), "a": "missing"}, "AttributeError"
+    if kind == "base-exit":
+        return _cmp("in", a, CALL("RExit")), "SystemExit"
+    if kind == "base-kbd":
+        return _cmp("not in", a, CALL("RKbd")), "KeyboardInterrupt"
+    if kind == "iter-list":  # list.__contains__ does not iterate: only a tracer that inspects the elements provokes __iter__
+        return _cmp("in", a, CALL("RIterL")), "RuntimeError"
+    if kind == "iter-dict":
+        return _cmp("not in", a, CALL("RIterD")), "RuntimeError"
+    if kind == "slot-key":
+        return {"k": "attr", "o": CALL("RSlotK", C(1)), "a": "missing"}, "KeyError"
+    if kind == "slot-value":
+        return {"k": "attr", "o": CALL("RSlotV", C(1)), "a": "other"}, "ValueError"
     if kind == "call-raises":
         return _cmp(">", CALL("boom", a), C(1)), "KeyError"
     raise ValueError(kind)
@@ -150,7 +201,8 @@ def _hazard_stmts(j: int, hz: dict) -> list[dict]:
         body = [{"k": "assign", "t": N(f"hz{j}"), "v": {"k": "ife", "c": expr, "t": C(1), "f": C(2)}}]
     else:
         body = [{"k": "assign", "t": N(f"hz{j}"), "v": expr}]
-    handler = {"exc": ["Exception"] if hz["broad"] else [exc], "as": None, "body": [{"k": "assign", "t": N(f"caught{j}"), "v": C(1)}]}
+    broad = "BaseException" if hz["kind"].startswith("base-") else "Exception"
+    handler = {"exc": [broad] if hz["broad"] or hz["kind"].startswith("base-") else [exc], "as": None, "body": [{"k": "assign", "t": N(f"caught{j}"), "v": C(1)}]}
     return [{"k": "try", "body": body, "handlers": [handler], "else": None, "final": None}]
 
 
@@ -203,8 +255,9 @@ def _regions(src: str, nfuncs: int) -> dict[str, dict[str, Any]]:
     names = [f"h{i}" for i in range(nfuncs)]
     for name in names:
         lo = starts[name]
-        later = [s for s in starts.values() if s > lo]
-        hi = min(later) - 1 if later else len(lines)
+        hi = lo
+        while hi < len(lines) and lines[hi].startswith(" "):  # the body = the indented lines that follow the def line
+            hi += 1
         rng = range(lo + 1, hi + 1)
         out[name] = {"lo": lo, "hi": hi, "witness": {n for n in rng if "wit" in lines[n - 1]},
                      "handlers": {n for n in rng if lines[n - 1].strip().startswith("caught")}}
@@ -284,7 +337,7 @@ def _child(case: dict[str, Any], scratch: str) -> dict[str, Any]:  # noqa: C901,
 
     res: dict[str, Any] = {"failures": [], "labels": [], "nontrivial": False, "evaluations": 0, "inconclusive": None}
     model = build_model(case)
-    src = pygen.render(model)
+    src = render_module(case)
     nfuncs = len(case["funcs"])
     calls = [dict(c, f=c["f"] % nfuncs) for c in case["calls"]]
     modname = "vfsut_c05_" + h12(case)
@@ -467,7 +520,7 @@ def evaluate(case: dict[str, Any]) -> Outcome:
     os.makedirs(scratch, exist_ok=True)
     kind, val = forked(lambda: _child(case, scratch), CHILD_TIMEOUT)
     if kind == "signal":
-        out.fail("interpreter-crash|signal", f"child killed by signal {val}\n{pygen.render(build_model(case))[:1500]}")
+        out.fail("interpreter-crash|signal", f"child killed by signal {val}\n{render_module(case)[:1500]}")
         return out
     if kind in ("timeout", "exit"):
         out.inconclusive = f"child-{kind}"
@@ -487,5 +540,5 @@ def evaluate(case: dict[str, Any]) -> Outcome:
     out.evaluations = max(1, val["evaluations"])
     if val["inconclusive"]:
         out.inconclusive = val["inconclusive"]
-    out.sample = {"source": pygen.render(build_model(case))[-1800:], "calls": case["calls"][:3], "metrics": case["metrics"]}
+    out.sample = {"source": render_module(case)[-1800:], "calls": case["calls"][:3], "metrics": case["metrics"]}
     return out
